@@ -765,7 +765,12 @@ pub fn run_driver<K: KeyT, S: Sut<K>>(
                         chosen.push(cands[rng.below(cands.len() as u64) as usize].clone());
                     }
                 }
-                r.run_fault_state_lim(&h, &chosen, 3, 6);
+                // (a bulk ending would leave an empty cache behind: the large state is the point here)
+                let mut path = h.clone();
+                while path.last().map_or(false, |o| o["op"] == "purge" || o["op"] == "resize") {
+                    path.pop();
+                }
+                r.run_fault_state_lim(&path, &chosen, 3, 6);
             } else {
                 r.run_hist(&h);
             }
